@@ -53,6 +53,13 @@ def rand_midi_score(rng, offgrid=False, many=False):
             c["parts"].append([nm, notes])
         if not c["parts"]:
             c["parts"].append([names[0], [sg.rand_rnote(rng, rest=0, cont=0, rel=0, systems="s", accs=False)]])
+        if not many and rng.random() < 0.12:
+            # a unison doubling inside one instrument: the same melody under another voice index, other dynamics
+            nm, notes = next(((a, b) for a, b in c["parts"] if not a.startswith("drums")), (None, None))
+            if nm is not None:
+                base = nm.split("__")[0]
+                twin = f"{base}__{7 + len(chords)}"
+                c["parts"].append([twin, [dict(x, amp=(90 if x.get("amp", 66) != 90 else 40)) for x in notes]])
         chords.append(c)
     return chords
 
